@@ -418,7 +418,9 @@ def run_roundtrip(world: World, family: str, path: Path) -> None:
     chunks = cuts_to_chunks(stream, cuts)
 
     world.notes.update(entry=entry.name, path=path.name, limit=limit, npackets=npk, stream_len=len(stream), nchunks=len(chunks), large=bool(big), chunks=[len(c) for c in chunks][:48])
-    drv = path.make(entry.protocol(path.needs, limit), world, big)
+    debug = bool(world.choose("debug", 2))  # serializers' debug option on the receiving side: no observable difference allowed
+    world.notes.update(debug=debug)
+    drv = path.make(entry.protocol(path.needs, limit, debug=debug), world, big)
     if big:
         world.probe("large_stream")
 
@@ -426,7 +428,7 @@ def run_roundtrip(world: World, family: str, path: Path) -> None:
 
     def ctx() -> str:
         return (
-            f"entry={entry.name} path={path.name} limit={limit} notes={ {k: world.notes[k] for k in ('size_hint', 'fill_mode', 'max_recv_size', 't2_mode', 'gap', 'head_start', 'slow_receiver', 'retry_interval') if k in world.notes} } "
+            f"entry={entry.name} path={path.name} limit={limit} debug={world.notes.get('debug')} notes={ {k: world.notes[k] for k in ('size_hint', 'fill_mode', 'max_recv_size', 't2_mode', 'gap', 'head_start', 'slow_receiver', 'retry_interval') if k in world.notes} } "
             f"packets={_short(packets, 400)} stream({len(stream)})={_short(stream, 300)} bounds={bounds} chunks={[len(c) for c in chunks][:64]}"
         )
 
